@@ -70,7 +70,26 @@ def run_case(ctx, rng, index, casedir):
         sit["defect:" + d] += 1
     gpath = os.path.join(casedir, "in.gfa")
     g.write(gpath, rng=rng, shuffle=rng.random() < 0.3)
+    untagged = False
+    if rng.random() < 0.12:
+        # only the reference path carries the rGFA tags (what a reference-only tagging of an assembly
+        # graph gives): SN/SO/SR missing on every non-reference segment
+        import re
+        with open(gpath) as f:
+            txt = f.read().split("\n")
+        txt = [re.sub(r"\t(SN:Z|SO:i|SR:i):[^\t]*", "", l) if l.startswith("S\t") and not re.search(r"\tSR:i:0(\t|$)", l) else l for l in txt]
+        with open(gpath, "w") as f:
+            f.write("\n".join(txt))
+        sit["graphs_with_untagged_non_reference_segments"] += 1
+        untagged = True
     named = OC.components_of(g)
+    if untagged:
+        # the names are voted among the tagged segments only: keep the cases where that vote agrees
+        # with the vote among all segments and is not a tie
+        for c, comp in named.items():
+            top = collections.Counter(g.nodes[x].contig for x in comp if g.nodes[x].rank == 0).most_common(2)
+            if not top or top[0][0] != c or (len(top) > 1 and top[0][1] == top[1][1]):
+                return {"sig": None, "nontrivial": False, "situations": {"skipped_case_ambiguous_name": 1}, "violations": []}
     for comp in named.values():  # component naming must be unambiguous (majority SN vote)
         top = collections.Counter(g.nodes[x].contig for x in comp).most_common(2)
         if len(top) > 1 and top[0][1] == top[1][1]:
